@@ -64,6 +64,29 @@ structure Cfg where
   gc : Nat                -- gc_interval, ns
 deriving Repr
 
+/-! `ConcurrentConfig` of quota.type.go: `request_expiration_sec` and `gc_interval_sec` are optional, independently
+    of each other; a field left out (0) takes its own default. -/
+
+/-- `defaultRequestExpiration` (60 s), ns; tied to the source by `Properties.C02.defaults_match_source` -/
+def defaultRequestExpiration : Nat := 60000000000
+/-- `defaultGCInterval` (30 s), ns -/
+def defaultGCInterval : Nat := 30000000000
+/-- `timeDeltaForDeadRequestDecision` (10 ms), ns -/
+def timeDelta : Nat := 10000000
+
+/-- `GetRequestExpiration`: looks at `RequestExpirationSec` only -/
+def requestExpiration (expirationSec : Nat) : Nat :=
+  if expirationSec == 0 then defaultRequestExpiration else expirationSec * 1000000000
+
+/-- `GetGCInterval`: looks at `GCIntervalSec` only -/
+def gcInterval (gcSec : Nat) : Nat :=
+  if gcSec == 0 then defaultGCInterval else gcSec * 1000000000
+
+/-- a concurrent quota as configured (`none` = field left out): `exp` is what `addReqToSystem` adds to the enqueue
+    time -/
+def QCfg.ofConfig (max : Nat) (expirationSec : Option Nat) (parent : Option Nat) : QCfg :=
+  ⟨.conc, max, requestExpiration (expirationSec.getD 0) + timeDelta, parent, .any⟩
+
 def Cfg.isConc (cfg : Cfg) (q : Nat) : Bool :=
   match cfg.quotas[q]? with
   | some c => c.kind == .conc
